@@ -102,7 +102,7 @@ func c15CliGen(c *engine.C) engine.Case {
 			h[i].Day = h[i-1].Day + 1
 		}
 	}
-	flags := [][]string{{"-t"}, {"-a"}, {"-o"}, {"-b"}, {"-b", "-t", "-a", "-o"}, {"-t", "-a"}, {"-a", "-o"}}[c.Choose(7, "tables")]
+	flags := [][]string{{"-t"}, {"-a"}, {"-o"}, {"-b"}, {"-b", "-t", "-a", "-o"}, {"-t", "-a"}, {"-a", "-o"}, {"-m", "-t"}, {"-m", "-b", "-a"}}[c.Choose(9, "tables")]
 	size := []int{0, 1, 20, 2}[c.Choose(4, "full-with-size")]
 	cut := size > 0
 	return func() engine.Result {
@@ -151,6 +151,14 @@ func c15CliGen(c *engine.C) engine.Case {
 		}
 		tables := c15SplitTables(r.Stdout)
 		res.Outcome = fmt.Sprint(tables)
+		// -m prints the change-log summary (no table) in front of the tables; the tables must not depend on it
+		allFlags := flags
+		flags := []string{}
+		for _, f := range allFlags {
+			if f != "-m" {
+				flags = append(flags, f)
+			}
+		}
 		if len(tables) != len(flags) {
 			res.Violations = append(res.Violations, engine.V("cli-git", "table-count", "coca %s printed %d tables, %d requested:\n%s", strings.Join(args[1:], " "), len(tables), len(flags), trimTo(r.Stdout, 1500)))
 			return res
